@@ -61,7 +61,7 @@ def _table(w):
     T, K, N, W = int(nt['T']), int(nt['K']), int(nt['N']), int(nt['W'])
     n = N * W
     X = [[frac(inp.get('x_%d_%d' % (p, j), 0)) for j in range(n)] for p in range(T)]
-    data = _f(X)
+    data = np.array([[int(v) for v in row] for row in X], dtype=np.int64) if nt.get('data_dtype') == 'int64' else _f(X)
     args = arguments.UserArguments(sparsity_weight=0.1, iteration_limit=1, label_switching_cost=1.0,
                                    min_cluster_size=1, min_meaningful_covariance=0, num_clusters=K,
                                    num_processors=1, window_size=W, biased_covariance=False)
